@@ -27,7 +27,7 @@ def SPEC(tier):
              Cfg('tsan-avx2', TSANLIB + ['-DGLM_FORCE_INTRINSICS', '-mavx2'], compiler='clang++', opt='-O1', aligned=True)]
     tt = driver_stage('C20', tcfgs, 'threads', 24, 600, name='optable.tsan')
     tt.cmd = ['clang++', '-O1', '-g', '-fsanitize=thread', '-fno-omit-frame-pointer'] + props.vlib.COMMON
-    tt.env.update({'TSAN_OPTIONS': 'exitcode=0:halt_on_error=0:suppress_equal_stacks=0:suppress_equal_addresses=0:report_signal_unsafe=0:log_path=/dev/null'})
+    tt.env.update({'TSAN_OPTIONS': 'symbolize=0:exitcode=0:halt_on_error=0:suppress_equal_stacks=0:suppress_equal_addresses=0:report_signal_unsafe=0:log_path=/dev/null'})
     stages.append(tt)
     for pid, scale in sorted((THOROUGH if tier == 'thorough' else QUICK).items()):
         if pid not in props.PROPS:
